@@ -28,7 +28,7 @@ META = {
             "the exit status on every faulted run against the fault-free run, and the event traces of the faulted runs are validated against "
             "Run.tla's process-executor actions.",
     "ref": "DESIGN.md section 4 C21",
-    "note": "A wall-clock timeout of 60 s turns a hang into a violation. Crash points are the hook events of the worker (every critical section "
+    "note": "A wall-clock timeout turns a hang into a violation (60 s, and 300 s in a second, solitary execution of the same fault). Crash points are the hook events of the worker (every critical section "
             "and every pipe write), not every machine instruction. Trusted: hooks, template output parsing, TLC.",
     "technique": "TLC model check incl. liveness (RunMC.tla) + fault enumeration over all hook crash points, TLC-judged obligations (Contain.tla) + trace validation against Run.tla",
 }
@@ -44,13 +44,13 @@ EXITCODE = 5
 OPTS = ["-q", "--template=" + projgen.TEMPLATE, "--inline-suppr", "--error-exitcode=%d" % EXITCODE, "--executor=process"]
 
 
-def run(root, jobs, fault=None, trace=True):
+def run(root, jobs, fault=None, trace=True, timeout=60):
     env = {}
     if fault:
         env["CPPCHECK_VERIF_FAULT"] = "child:evt:%d:%s:%s" % (fault["k"], fault["how"], fault["file"])
     proj = {"opts": OPTS, "sources": SOURCES}
     label = "c21/j%d/%s" % (jobs, "nofault" if not fault else "%s-%d-%s" % (fault["file"], fault["k"], fault["how"]))
-    return runlayer.run_variant(proj, root, label, ["-j%d" % jobs], env=env, timeout=60, trace=trace)
+    return runlayer.run_variant(proj, root, label, ["-j%d" % jobs], env=env, timeout=timeout, trace=trace)
 
 
 def fobs(r):
@@ -80,17 +80,21 @@ def judge(ref, observations):
     return int(m.group(1)), vlib.read_ndjson(out)
 
 
-def fault_died(r, fault):
+def dead_files(r):
+    """files whose worker process died at a fault point (measured: last event of the worker's log is marked `dies')"""
+    out = []
     for pid, evs in r.get("raw", {}).items():
         if evs and evs[-1].get("dies"):
-            return True
-    return False
+            st = [e for e in evs if e.get("e") == "ChildStart"]
+            if st:
+                out.append(st[0]["file"])
+    return sorted(out)
 
 
 def classify(b, points):
     """known-finding identity: which kind of crash point fails in which way"""
     f = b["fault"]
-    kind = points.get((f["file"], f["k"]), "?")
+    kind = points.get((f["file"], f["k"]), "?") if f["file"] != ".c" else "several-workers:" + points.get((SOURCES[0], f["k"]), "?")
     return "%s@%s" % ("+".join(b["reasons"]), kind)
 
 
@@ -151,6 +155,12 @@ def main(tier, seed, replay=None):
             for k in range(nev.get(f, 0)):
                 for how in hows:
                     faults.append({"file": f, "k": k, "how": how})
+        # several workers die in the same run: the fault context ".c" matches every worker, each dies at its k-th event
+        # (crashes close together, also of the last workers of the run: reaping and reporting must not depend on the order)
+        kmax = min(nev.values()) if nev else 0
+        for k in (range(kmax) if tier == "thorough" else sorted(set([0, 1, 2, 3, kmax // 2, max(0, kmax - 3), max(0, kmax - 2), max(0, kmax - 1)]))):
+            for how in hows[:2]:
+                faults.append({"file": ".c", "k": k, "how": how})
     observations = []
     tr_runs = []
     runs_by_key = {}
@@ -163,13 +173,22 @@ def main(tier, seed, replay=None):
     work = [(f, j) for f in faults for j in jobs_list]
     with concurrent.futures.ThreadPoolExecutor(max_workers=min(8, vlib.NCPU)) as ex:
         for fault, jobs, r in ex.map(do, work):
-            died = fault_died(r, fault)
-            o = {"fault": dict(fault, jobs=jobs), "died": died, "timeout": r["rc"] is None,
+            dead = dead_files(r)
+            o = {"fault": dict(fault, jobs=jobs), "died": bool(dead), "dead": dead, "timeout": r["rc"] is None,
                  "exit": -999 if r["rc"] is None else r["rc"], "findings": fobs(r)}
             observations.append(o)
             runs_by_key[(fault["file"], fault["k"], fault["how"], jobs)] = r
             if r["hdr"] is not None and r["rc"] is not None:
                 tr_runs.append((r["label"], r["hdr"], r["events"]))
+    # a hang is judged by a wall-clock limit; on a heavily loaded machine a run can exceed 60 s without hanging, so every
+    # run that hit the limit is executed again, alone, with 300 s, and only that second result counts
+    for i, o in enumerate(observations):
+        if o["timeout"]:
+            fault = {k: o["fault"][k] for k in ("file", "k", "how")}
+            r = run(root, o["fault"]["jobs"], fault, trace=True, timeout=300)
+            dead = dead_files(r)
+            observations[i] = {"fault": o["fault"], "died": bool(dead), "dead": dead, "timeout": r["rc"] is None,
+                               "exit": -999 if r["rc"] is None else r["rc"], "findings": fobs(r), "second_execution": True}
     runlayer.cleanup(root)
     judged, bad = judge(ref, observations)
     # trace validation: a sample of the faulted runs (each is a different crash point) + the reference run
